@@ -60,17 +60,18 @@ func (g *mossGate) set(held bool) {
 
 // settle is called after every batch: with run the merger works until it has nothing left to do, otherwise it only
 // finishes the round it is in; either way it is parked again when settle returns.
-func (g *mossGate) settle(run bool) {
+func (g *mossGate) settle(run bool) (ran bool) {
 	if g == nil {
-		return
+		return false
 	}
 	if g.due(run) {
 		g.set(false)
 		synctest.Wait()
 		g.set(true)
-		return
+		return true
 	}
 	synctest.Wait()
+	return false
 }
 
 // due counts a batch and says whether the merger has to run now: when the batch asks for it, and before moss would
